@@ -299,6 +299,7 @@ func checkC13(w *World, r *Report) {
 	checkKindsComparedForEquality(w, r)
 	checkKindSetsWideEnough(w, r)
 	checkTwinKindsAdvanceAlike(w, r)
+	checkOnlyTheTokenizerFindsTags(w, r)
 }
 
 func exprArgs(c *ast.CallExpr) string {
@@ -1507,4 +1508,50 @@ func checkTwinKindsAdvanceAlike(w *World, r *Report) {
 		})
 	}
 	r.Counts["switches with separate arms for a delimiter and its trimming twin"] = n
+}
+
+// checkOnlyTheTokenizerFindsTags — R13.8: block tags are found by the tokenizer.  No function
+// other than a method of the tokenizer searches text for the block or comment opener ("{%", "{#"
+// as the needle of a strings/bytes search, split or cut).  A second, hand-made reading of the
+// source ("the tag name is the first word after {%") does not know the whitespace-control dash,
+// comments, verbatim bodies or string literals: `{%- for` is read as a tag called "-".
+func checkOnlyTheTokenizerFindsTags(w *World, r *Report) {
+	tokT := w.named("ZeroAllocTokenizer")
+	n := 0
+	for _, fn := range w.pkgFuncs() {
+		isTok := fn.Signature.Recv() != nil && types.Identical(deref(fn.Signature.Recv().Type()), tokT)
+		instrsOf(fn, func(in ssa.Instruction) {
+			c, ok := in.(*ssa.Call)
+			if !ok {
+				return
+			}
+			g := c.Call.StaticCallee()
+			if g == nil || g.Pkg == nil || (g.Pkg.Pkg.Path() != "strings" && g.Pkg.Pkg.Path() != "bytes") {
+				return
+			}
+			switch {
+			case strings.HasPrefix(g.Name(), "Index"), strings.HasPrefix(g.Name(), "LastIndex"), strings.HasPrefix(g.Name(), "Contains"),
+				strings.HasPrefix(g.Name(), "Split"), strings.HasPrefix(g.Name(), "Cut"), g.Name() == "Count", strings.HasPrefix(g.Name(), "HasPrefix"):
+			default:
+				return
+			}
+			needle := ""
+			for _, a := range c.Call.Args[1:] {
+				if s, ok := constString(a); ok && (strings.Contains(s, "{%") || strings.Contains(s, "{#")) {
+					needle = s
+				}
+			}
+			if needle == "" {
+				return
+			}
+			n++
+			construct := fmt.Sprintf("search for %q", needle)
+			if isTok {
+				r.ok("R13.8", ssaName(fn), construct, w.posOf(in.Pos()), "a method of the tokenizer", false)
+			} else {
+				r.bad("R13.8", ssaName(fn), construct, w.posOf(in.Pos()), "tags are looked for in the source outside the tokenizer: this second reading does not treat `{%-` (the dash), comments, verbatim bodies and string literals the way the tokenizer does, so a tag written with whitespace control is taken for a different tag")
+			}
+		})
+	}
+	r.Counts["searches for tag openers"] = n
 }
